@@ -213,6 +213,11 @@ def base_worlds(tier, seed):
     ws.append(dict(refs=[refs[1], refs[0], refs[2]],
                    queries=[e2e.worlds.as_map(9, qb), e2e.worlds.as_map(4, qa), e2e.worlds.as_map(17, pool[1][1]), e2e.worlds.as_map(30, [100.0, 20000.0])],
                    desc=['two parts far apart on one reference', 'two joinable parts', 'plain', 'unalignable']))
+    # crossed ids: molecule 4 is joined on reference 9, molecule 9 lies on reference 4 (CMAP ids of the two files are unrelated name spaces)
+    rx = [(9, refs[0][1], refs[0][2]), (4, refs[1][1], refs[1][2]), refs[2]]
+    ws.append(dict(refs=rx, queries=[e2e.worlds.as_map(4, qa), e2e.worlds.as_map(9, e2e.worlds.window_query(refs[1], 20, 16, False)[0][2]),
+                                    e2e.worlds.as_map(17, pool[0][1]), e2e.worlds.as_map(30, [100.0, 20000.0])],
+                   desc=['two joinable parts on reference 9', 'plain window of reference 4', 'plain', 'unalignable']))
     # two molecules with consecutive ids that both end without a record (two labels each), between alignable ones
     ws.append(dict(refs=[refs[1], refs[0], refs[2]],
                    queries=[e2e.worlds.as_map(4, pool[3][1]), e2e.worlds.as_map(9, [100.0, 20000.0]), e2e.worlds.as_map(10, [0.0, 31000.0]),
@@ -245,7 +250,7 @@ class Variants(core.Layer):
 
     def __init__(self, tier, seed):
         self.worlds = base_worlds(tier, seed)
-        self.n_general = len(self.worlds) - 3      # the last three base worlds are purpose-built (join order, equal-span pair, adjacent pair-less)
+        self.n_general = len(self.worlds) - 4      # the last four base worlds are purpose-built (join order, crossed ids, adjacent pair-less, equal-span pair)
         self.variants = variants()
         self.bounds = dict(base_worlds=len(self.worlds), variants_per_world=len(self.variants), modes=list(MODES),
                            descriptions=[w['desc'] for w in self.worlds][:6])
